@@ -254,4 +254,52 @@ theorem explode_flatten (k : Nat) (hk : 0 < k) (cmd : Char) (args : List Arg)
       · subst he; exact ⟨h2 g (by simp), Or.inl rfl⟩
       · subst he; exact ⟨h2 g' (by simp [hg']), Or.inr rfl⟩
 
+/-! typing of the arguments by slot: `_ARC_ARGUMENT_TYPES[i % 7]` -/
+
+def Arg.isFlag : Arg → Bool
+  | .flag _ => true
+  | .num _ => false
+
+theorem arcSlotIsFlag_small : ∀ m, m < 7 → arcSlotIsFlag m = (m == 3 || m == 4) := by decide
+
+theorem arcSlotIsFlag_eq (n : Nat) : arcSlotIsFlag n = (n % 7 == 3 || n % 7 == 4) := by
+  have h7 : Gen.arcArgTypes.length = 7 := by decide
+  have h1 : arcSlotIsFlag n = arcSlotIsFlag (n % 7) := by
+    unfold arcSlotIsFlag; rw [h7, Nat.mod_mod]
+  rw [h1, arcSlotIsFlag_small _ (Nat.mod_lt _ (by decide))]
+
+theorem peel_typing (isArc : Bool) (fuel i : Nat) (toks : List (List Char)) (args : List Arg)
+    (h : peel isArc fuel i toks = .ok args) :
+    ∀ k (hk : k < args.length), (args[k]).isFlag = (isArc && arcSlotIsFlag (i + k)) := by
+  induction fuel generalizing i toks args with
+  | zero => simp [peel] at h; subst h; intro k hk; simp at hk
+  | succ f ih =>
+    cases toks with
+    | nil => simp [peel] at h; subst h; intro k hk; simp at hk
+    | cons arg rest =>
+      simp only [peel] at h
+      split at h
+      · cases h
+      · rename_i lex rem hm
+        split at h
+        · rename_i l hl
+          injection h with h; subst h
+          intro k hk
+          cases k with
+          | zero =>
+            simp only [List.getElem_cons_zero, Nat.add_zero]
+            by_cases hf : (isArc && arcSlotIsFlag i) = true <;> simp [hf, Arg.isFlag]
+          | succ k =>
+            simp only [List.getElem_cons_succ]
+            have := ih (i + 1) _ l hl k (by simpa using hk)
+            rw [this]; congr 2; omega
+        · cases h
+
+theorem parseArgs_typing (cmd : Char) (raw : List Char) (args : List Arg) (h : parseArgs cmd raw = .ok args) :
+    ∀ k (hk : k < args.length),
+      (args[k]).isFlag = ((cmd == 'a' || cmd == 'A') && (k % 7 == 3 || k % 7 == 4)) := by
+  intro k hk
+  have := peel_typing _ _ 0 _ args h k hk
+  rw [this, arcSlotIsFlag_eq, Nat.zero_add]
+
 end PicoSVG.PathLex
